@@ -36,6 +36,7 @@ static int rel_free(const std::string& r, F d, const Integer& a) {
 static void run(const vp::Args& a) {
     const std::string& k = a.tok[0];
     std::string out;
+    char numbuf[32];
     try {
         if (k == "cd" || k == "cf") {
             Integer x = Zof(a.s(2));
@@ -45,6 +46,10 @@ static void run(const vp::Args& a) {
             out = r ? "1" : "0";
         } else if (k == "acd") { out = vp::hex_ll(sg(absCompare(Zof(a.s(0)), dbits(strtoull(a.s(1).c_str(), nullptr, 16)))));
         } else if (k == "acf") { out = vp::hex_ll(sg(absCompare(Zof(a.s(0)), fbits((uint32_t)strtoul(a.s(1).c_str(), nullptr, 16)))));
+        } else if (k == "ctd") { out = H(Integer(dbits(strtoull(a.s(0).c_str(), nullptr, 16))));
+        } else if (k == "asd") { Integer z(12345); z = dbits(strtoull(a.s(0).c_str(), nullptr, 16)); out = H(z);
+        } else if (k == "zinit") { ZRing<Integer> Z; Integer z(-7); Z.init(z, dbits(strtoull(a.s(0).c_str(), nullptr, 16))); out = H(z);
+        } else if (k == "tod") { snprintf(numbuf, sizeof numbuf, "%llx", (unsigned long long)bitsd((double)Zof(a.s(0)))); out = numbuf;
         } else if (k == "fact") { out = H(fact((uint64_t)a.W(0)));
         } else if (k == "limb") { out = vp::hex_ull(Zof(a.s(0))[(size_t)a.W(1)]);
         } else if (k == "len") { out = vp::hex_ull(length(Zof(a.s(0))));
@@ -129,6 +134,19 @@ int main(int argc, char** argv) {
         snprintf(buf, sizeof buf, "%llx", (unsigned long long)d);
         const Integer& z = zs[(j * 13 + (size_t)(d % 7)) % zs.size()];
         for (const char* r : rels) line(std::string("cd ") + r + " L " + H(z) + " " + buf);
+    }
+    // construction / assignment / init from a double (every finite double of the lists, the doubles around each integer) and conversion back
+    for (uint64_t d : ds) { if (((d >> 52) & 0x7ff) == 0x7ff) continue; snprintf(buf, sizeof buf, "%llx", (unsigned long long)d);
+        line(std::string("ctd ") + buf); line(std::string("asd ") + buf); line(std::string("zinit ") + buf); }
+    for (const Integer& z : zs) {
+        double dz = mpz_get_d(z.get_mpz_const());
+        if (!std::isfinite(dz)) continue;
+        for (double d : {dz, std::nextafter(dz, INFINITY), std::nextafter(dz, -INFINITY), dz + 0.5, dz - 0.5, dz / 3.0}) {
+            if (!std::isfinite(d)) continue;
+            snprintf(buf, sizeof buf, "%llx", (unsigned long long)bitsd(d));
+            line(std::string("ctd ") + buf); line(std::string("asd ") + buf); line(std::string("zinit ") + buf);
+        }
+        line("tod " + H(z));
     }
     for (int n = 0; n <= (thorough ? 300 : 120); ++n) { snprintf(buf, sizeof buf, "%x", n); line(std::string("fact ") + buf); }
     // perfect powers
